@@ -33,6 +33,11 @@ WORK = ROOT / ".work"
 EVID = ROOT / "evidence"
 REPLAYS = ROOT / "replays"
 KNOWN_FILE = ROOT / "known_findings.json"
+REGRESS = REPLAYS / "regress"
+if os.environ.get("VF_REPO_SRC"):
+    # sensitivity experiment against a scratch worktree: never touch the committed evidence / replays
+    EVID = WORK / "scratch-evidence"
+    REPLAYS = WORK / "scratch-replays"
 
 
 class HarnessError(Exception):
@@ -244,7 +249,7 @@ def run_shard(pid: str, tier: str, shard: int, nshards: int, base_seed: int, wor
 
 
 def _write_replay(pid: str, case, verdict) -> Path:
-    REPLAYS.mkdir(exist_ok=True)
+    REPLAYS.mkdir(parents=True, exist_ok=True)
     p = REPLAYS / f"{pid}-{digest(case)}.json"
     p.write_text(json.dumps(dict(property=pid, case=case, verdict=verdict), indent=1,
                             default=_json_default, sort_keys=True))
@@ -253,7 +258,7 @@ def _write_replay(pid: str, case, verdict) -> Path:
 
 def run_regress(pid: str, mod, known, fixed, out):
     """Re-judge saved cases of every finding first (no Hypothesis involved)."""
-    d = REPLAYS / "regress" / pid
+    d = REGRESS / pid
     n = 0
     viol = []
     if not d.is_dir():
@@ -284,7 +289,7 @@ def main_check(pid: str, tier: str) -> int:
     plan = mod.plan(tier)
     known, fixed = load_known(pid)
     nshards = int(plan.get("shards", 16))
-    workdir = WORK / pid
+    workdir = WORK / f"{pid}-{os.getpid()}"
     if workdir.exists():
         shutil.rmtree(workdir)
     workdir.mkdir(parents=True)
@@ -407,7 +412,7 @@ def main_check(pid: str, tier: str) -> int:
         wall_s=round(wall, 2),
         violations=len(violations),
     )
-    EVID.mkdir(exist_ok=True)
+    EVID.mkdir(parents=True, exist_ok=True)
     (EVID / f"{pid}.json").write_text(json.dumps(ev, indent=1, default=_json_default))
     out(f"SUMMARY property={pid} tier={tier} seed={base_seed} evaluations={cov['evaluations']} "
         f"distinct_nontrivial={distinct_nt} violations={len(violations)} "
